@@ -669,3 +669,55 @@ pub fn run(cfg: &Cfg, rep: &mut Report) {
         rep.sample(J::obj().set("example", "\\p{scx=Grek}, \\p{Script_Extensions=Greek}, \\p{scx=Greek}, \\p{Script_Extensions=Grek}: each scanned over all 1,112,064 scalar values, sets must be equal; \\P is the complement; on code points assigned in 16.0 equal to regex-syntax's 16.0 set modulo pinned drift"));
     }
 }
+
+/// Second stage (utf16 build): surrogate code points cannot occur in a `&str` haystack, so the
+/// main stage never sees whether a property set contains them. Through the UCS-2 entry point
+/// every unit is a code point; each property value is evaluated on all 2048 surrogates, where
+/// Unicode fixes the answer: gc=Cs (hence gc=C), sc/scx=Unknown, Any and Assigned -- and nothing else.
+#[cfg(feature = "utf16")]
+pub fn run_u16(cfg: &Cfg, rep: &mut Report) {
+    if cfg.replay.is_some() {
+        return;
+    }
+    let units: Vec<u16> = (0xD7FFu16..=0xE000).collect();
+    let vals = values();
+    for (vi, val) in vals.iter().enumerate() {
+        if !cfg.mine(vi as u64) {
+            continue;
+        }
+        if vi % 16 == 0 || vi < 16 {
+            rep.begin(vi as u64 + 1, &J::obj().set("property", val.canonical.as_str()));
+        }
+        let holds_surrogates = matches!(val.key.as_str(), "Any" | "Assigned" | "gc=Cs" | "gc=C" | "sc=Unknown" | "scx=Unknown");
+        for (neg, tmpl) in [(false, "\\p{X}"), (true, "\\P{X}"), (false, "[\\p{X}]"), (true, "[^\\p{X}]")] {
+            let pat = tmpl.replace("X", &val.canonical);
+            for flags in ["u", "v"] {
+                let re = match engine::compile(&engine::to_cps(&pat), Flags::from_str(flags), false) {
+                    Guarded::Ok(Ok(re)) => re,
+                    _ => {
+                        rep.inc("skipped.does_not_compile");
+                        continue;
+                    }
+                };
+                let r = engine::guarded(50_000_000, || re.find_from_ucs2(&units, 0).map(|m| m.range()).collect::<Vec<_>>());
+                let Guarded::Ok(ms) = r else {
+                    rep.inconclusive("fuel_or_panic");
+                    continue;
+                };
+                let matched: std::collections::HashSet<u16> = ms.iter().filter(|r| r.end == r.start + 1).map(|r| units[r.start]).collect();
+                rep.eval(fnv64(format!("sur|{}|{}", pat, flags).as_bytes()), true);
+                rep.inc("surrogate_probes");
+                let bad = (0xD800u16..=0xDFFF).find(|u| matched.contains(u) != (holds_surrogates != neg));
+                if let Some(u) = bad {
+                    rep.violation(violation(
+                        "C11",
+                        "a property escape evaluated on a surrogate code point (UCS-2 entry point) disagrees with Unicode",
+                        J::obj().set("pattern", pat.as_str()).set("flags", flags).set("unit", u as u32).set("check", "c11u16"),
+                        format!("U+{:04X} matched = {}", u, matched.contains(&u)),
+                        format!("surrogates are members of exactly gc=Cs, gc=C, sc/scx=Unknown, Any, Assigned: matched = {}", holds_surrogates != neg),
+                    ));
+                }
+            }
+        }
+    }
+}
